@@ -44,6 +44,14 @@ type hk struct{}
 func (hk) Run(e *zerolog.Event, l zerolog.Level, m string) { e.Bool("hooked", true) }
 
 func logOne(l *zerolog.Logger, g, k int, shape string) {
+	switch shape {
+	case "ctxobj": // a child logger derived on this goroutine, with a user marshaler in its context
+		c := l.With().Object("co", objM{g, k}).Logger()
+		l = &c
+	case "ctxarr":
+		c := l.With().Array("ca", arrM{g, k}).Logger()
+		l = &c
+	}
 	e := l.Info().Int("g", g).Int("k", k)
 	switch shape {
 	case "flat":
@@ -60,6 +68,8 @@ func logOne(l *zerolog.Logger, g, k int, shape string) {
 		e = e.Object("o", objM{g, k})
 	case "big":
 		e = e.Str("pad", big)
+	case "fobj":
+		e = e.Fields(map[string]interface{}{"fo": objM{g, k}})
 	}
 	e.Msg("m")
 }
